@@ -279,6 +279,31 @@ def special_bool():
     return out
 
 
+def propagate_specials():
+    """Equalities whose representative is bound by a quantifier in every
+    kind of position (Boolean, nested, inside a theory atom)."""
+    out = []
+    for t, lt_, one, zero in ((B.INT, 'lt', B.Int(1), B.Int(0)),
+                              (B.BV(3), 'bvult', B.BVc(1, 3), B.BVc(0, 3))):
+        a, b, c = (B.Sym('pa', t), B.Sym('pb', t), B.Sym('pc', t))
+        A, Bv, Cv = ('pa', t), ('pb', t), ('pc', t)
+        L = lambda x, y: (lt_, None, (x, y))
+        E = lambda x, y: ('eq', None, (x, y))
+        for (s1, s2, V) in ((b, a, A), (a, b, Bv), (b, a, Bv), (a, b, A)):
+            q = ('exists', (V,), (L(b, a),))
+            out += [
+                ('and', None, (E(s1, s2), q)),
+                ('and', None, (E(s1, s2), ('forall', (Cv,), (
+                    ('or', None, (q, E(c, a))),)))),
+                ('and', None, (E(s1, s2), E(('ite', None, (q, one, zero)),
+                                            one))),
+                ('and', None, (E(s1, s2), E(c, a), L(zero, ('ite', None, (
+                    ('forall', (V,), (('not', None, (L(a, b),)),)), one,
+                    zero))))),
+            ]
+    return out
+
+
 def propagate_cases(rng, n):
     """Conjunctions of var/const equalities of every sort, with chains and
     conflicts, plus unrelated conjuncts."""
@@ -317,6 +342,12 @@ def propagate_cases(rng, n):
             if rng.random() < 0.5:
                 body = ('or', None, (body, B.Sym('p0', B.BOOL)))
             qf_ = (rng.choice(['exists', 'forall']), (v[1],), (body,))
+            if rng.random() < 0.3:
+                # the quantifier sits inside a theory atom (no quantifier
+                # in a Boolean position anywhere)
+                one = consts[1] if len(consts) > 1 else consts[0]
+                qf_ = ('eq', None, (('ite', None, (qf_, one, consts[0])),
+                                    one))
             if rng.random() < 0.4:
                 # the binder sits below another quantifier / connective
                 w = rng.choice([s_ for s_ in syms if s_ is not v] or syms)
@@ -437,6 +468,12 @@ def run(rep):
             j += 1
     common.fresh_env()
     rep.share(0.7)
+    if rep.shard == 0:
+        for b in propagate_specials():
+            for proc in ('propagate_toplevel', 'propagate_toplevel_nosimp'):
+                if want(proc):
+                    ck.check(proc, b, j)
+                    j += 1
     for b in propagate_cases(rng, 120 if quick else 20000):
         if rep.out_of_time():
             break
